@@ -233,3 +233,21 @@ package prefilter
 //@ trusted func (Prefilter).IsComplete
 //@   opt recv=p
 //@   ensures result == pfIsComplete(p)
+
+// the pure-Go candidate scan (used when the CPU features of the vector kernels are masked: C12): it returns the FIRST
+// position whose fingerprint mask is non-zero, examining every position at which a fingerprint still fits, and that mask
+//@ spec func nm(t *Teddy, h []byte, i int, p int) byte = t.masks.loMasks[p][int(h[i+p] & 15)] & t.masks.hiMasks[p][int((h[i+p] >> 4) & 15)]
+//@ spec func cmUpTo(t *Teddy, h []byte, i int, k int) byte = ite(k >= 1, nm(t, h, i, 0), 255) & ite(k >= 2, nm(t, h, i, 1), 255) & ite(k >= 3, nm(t, h, i, 2), 255) & ite(k >= 4, nm(t, h, i, 3), 255)
+//@ func (*Teddy).findScalarCandidate
+//@   props C16 C12 C07
+//@   arith mixed
+//@   requires t != nil && t.masks != nil && t.masks.fingerprintLen <= 4 && len(haystack) <= 140737488355328
+//@   ensures pos == -1 ==> (forall j :: 0 <= j && j + int(t.masks.fingerprintLen) <= len(haystack) ==> cmUpTo(t, haystack, j, int(t.masks.fingerprintLen)) == 0)
+//@   ensures pos != -1 ==> 0 <= pos && pos + int(t.masks.fingerprintLen) <= len(haystack) && bucketMask == cmUpTo(t, haystack, pos, int(t.masks.fingerprintLen)) && bucketMask != 0 && (forall j :: 0 <= j && j < pos ==> cmUpTo(t, haystack, j, int(t.masks.fingerprintLen)) == 0)
+//@   loop 1: invariant 0 <= i && i <= len(haystack) + 1 && fpLen == int(t.masks.fingerprintLen) && 0 <= fpLen && fpLen <= 4
+//@   loop 1: invariant forall j :: 0 <= j && j < i ==> cmUpTo(t, haystack, j, fpLen) == 0
+//@   loop 1: decreases len(haystack) + 1 - i
+//@   loop 2: invariant 0 <= pos && pos <= fpLen && 0 <= i && i + fpLen <= len(haystack) && fpLen == int(t.masks.fingerprintLen) && fpLen <= 4
+//@   loop 2: invariant candidateMask == cmUpTo(t, haystack, i, pos)
+//@   loop 2: invariant forall j :: 0 <= j && j < i ==> cmUpTo(t, haystack, j, fpLen) == 0
+//@   loop 2: decreases fpLen - pos
